@@ -219,7 +219,7 @@ func checkHard(c histCase) (o pbt.Outcome) {
 }
 
 func TestC27Hard(t *testing.T) {
-	pbt.Run(t, pbt.Spec{ID: "C27", Sub: "hard", Quick: 20000, Thorough: 200000,
+	pbt.Run(t, pbt.Spec{ID: "C27", Sub: "hard", Quick: 20000, Thorough: 120000,
 		Rule: "hard policy, cool-down 1-120 s, breaker window 1-8 s / threshold 1-3; 1-4 blocks of [quiet time, errors that trip the breaker (TryFuse or failing Get), segments of rounds: passing at 4 s / 1 s steps across the end of the cool-down, failing probes, master down/missing, unhealthy replication, re-trip while down]; non-trivial = a fully passing round on the fused replica both before and after the cool-down ended",
 		Floor: 0.5}, genHard, checkHard)
 }
@@ -350,7 +350,7 @@ func episodes(tr hf.Trace) string {
 }
 
 func TestC27Gradual(t *testing.T) {
-	pbt.Run(t, pbt.Spec{ID: "C27", Sub: "gradual", Quick: 8000, Thorough: 80000,
+	pbt.Run(t, pbt.Spec{ID: "C27", Sub: "gradual", Quick: 8000, Thorough: 50000,
 		Rule: "gradual policy; 2-15 breaker episodes, each fused 0-7 s (soon), 8 s (edge, not judged) or 9-300 s after the previous recovery, followed by runs of 1-25 passing rounds, failing probes, master-down and unhealthy-replication rounds, re-trips, and usually a run of up to 125 passing rounds that ends at the recovery; non-trivial = at least two measured episodes of which one needed two or more successful rounds",
 		Floor: 0.5}, genGradual, checkGradual)
 }
